@@ -1,0 +1,21 @@
+//go:build verif
+
+package bmc
+
+import (
+	"time"
+
+	"github.com/gebn/bmc/internal/pkg/transport"
+
+	"github.com/cenkalti/backoff/v4"
+)
+
+// VerifNewV2SessionlessTransport builds a V2SessionlessTransport over a
+// caller-supplied transport, optionally replacing the retry back-off.
+func VerifNewV2SessionlessTransport(t transport.Transport, timeout time.Duration, b backoff.BackOff) *V2SessionlessTransport {
+	s := newV2SessionlessTransport(t, &dialConfig{timeout: timeout})
+	if b != nil {
+		s.V2Sessionless.backoff = b
+	}
+	return s
+}
